@@ -1082,6 +1082,10 @@ class TT():
             index = [index]
         if not isinstance(index, list) and index != None:
             raise InvalidArguments('Invalid index.')
+        if index != None:
+            if any(not isinstance(i, int) or i < -len(self.__N) or i >= len(self.__N) for i in index):
+                raise InvalidArguments('Invalid index.')
+            index = [i % len(self.__N) for i in index]
 
         if index == None:
             # the case we need to sum over all modes
